@@ -2,6 +2,7 @@ package main
 
 import (
 	"fmt"
+	"go/token"
 	"regexp"
 	"sort"
 	"strings"
@@ -21,11 +22,18 @@ var substStack []map[string]string
 
 // resolvedPath: path(v), except that one result of a multi-result in-module helper (a validation phase returning
 // (key, …, err)) is spelled as what the helper returns there on its non-zero returns, in the caller's terms.
+var resolvedPathBusy = map[ssa.Value]bool{}
+
 func resolvedPath(v ssa.Value) string {
 	ex, ok := v.(*ssa.Extract)
 	if !ok {
 		return path(v)
 	}
+	if resolvedPathBusy[v] {
+		return path(v) // mutually recursive helpers
+	}
+	resolvedPathBusy[v] = true
+	defer delete(resolvedPathBusy, v)
 	call, ok := ex.Tuple.(*ssa.Call)
 	if !ok {
 		return path(v)
@@ -110,7 +118,7 @@ func effectSites(t *Tree, f *ssa.Function, depth int) []effectSite {
 			return
 		}
 		a := call.Call.Args
-		switch cal.Name() {
+		switch fnName(cal) {
 		case "addKey2PtWithVal":
 			kind := "field"
 			if v, ok := constInt(a[4]); ok && v == kindTag {
@@ -146,6 +154,31 @@ func effectSites(t *Tree, f *ssa.Function, depth int) []effectSite {
 		case "SetExit":
 			out = append(out, effectSite{"write", "exit", call, f})
 		default:
+			if prims := pointPrimitives(t, cal); len(prims) > 0 {
+				// a helper of the builtin package that is one point operation on its (aliased) key parameter —
+				// whatever it is called: the helper table above split, merged or renamed
+				for _, pr := range prims {
+					keyOf := func(i int) string {
+						if i < len(a) {
+							return normKey(a[i])
+						}
+						return "?"
+					}
+					switch pr.method {
+					case "Set":
+						out = append(out, effectSite{"write", "set-field(" + keyOf(pr.key) + ")", call, f})
+					case "SetTag":
+						out = append(out, effectSite{"write", "set-tag(" + keyOf(pr.key) + ")", call, f})
+					case "Delete":
+						out = append(out, effectSite{"write", "delete(" + keyOf(pr.key) + ")" + nodeKindGuard(t, call), call, f})
+					case "Rename":
+						out = append(out, effectSite{"write", "rename(to=" + keyOf(pr.key) + ", from=" + keyOf(pr.key2) + ")", call, f})
+					case "Get":
+						out = append(out, effectSite{"read", "point-only(" + keyOf(pr.key) + ")", call, f})
+					}
+				}
+				break
+			}
 			if depth > 0 && inModule(cal) && cal.Pkg == f.Pkg && cal.Signature.Recv() == nil {
 				// the helper's parameters are the caller's arguments
 				sub := map[string]string{}
@@ -210,7 +243,7 @@ func nodeKindGuard(t *Tree, call *ssa.Call) string {
 		param string
 		kind  string
 	}
-	test := func(cond ssa.Value) (pk, bool) {
+	testEq := func(cond ssa.Value) (pk, bool) {
 		bo, ok := cond.(*ssa.BinOp)
 		if !ok || bo.Op.String() != "==" {
 			return pk{}, false
@@ -236,10 +269,19 @@ func nodeKindGuard(t *Tree, call *ssa.Call) string {
 		}
 		byParam[x.param][x.kind] = true
 	}
+	test := testEq
 	// single dominating edges
 	for _, ec := range controlling(call.Block()) {
 		if x, ok := test(ec.Cond); ok && ec.Pol {
 			add(x)
+		}
+		// the false edge of `kind != K`: a guard clause that returned on the true edge
+		if bo, isB := ec.Cond.(*ssa.BinOp); isB && bo.Op == token.NEQ && !ec.Pol {
+			eq := *bo
+			eq.Op = token.EQL
+			if x, ok := testEq(&eq); ok {
+				add(x)
+			}
 		}
 	}
 	// a multi-case arm: the nearest dominating block all of whose predecessors are true edges of such tests
@@ -280,3 +322,83 @@ func nodeKindGuard(t *Tree, call *ssa.Call) string {
 }
 
 var _ = fmt.Sprint
+
+type pointPrim struct {
+	method    string
+	key, key2 int // parameter positions of the key(s)
+}
+
+// pointPrimitives: h is a function of the builtin package (no receiver) whose only point operations are calls of
+// (*input.Point).Set / SetTag / Delete / Rename / Get on the point obtained from its first parameter, each with a key
+// that is one of h's parameters after the `_` alias was applied (a phi of the parameter and the origin key).
+func pointPrimitives(t *Tree, h *ssa.Function) []pointPrim {
+	if h == nil || !inModule(h) || h.Pkg == nil || h.Pkg.Pkg.Path() != pFuncs || h.Signature.Recv() != nil || len(h.Params) < 2 {
+		return nil
+	}
+	aliased := func(v ssa.Value) int {
+		phi, ok := v.(*ssa.Phi)
+		if !ok {
+			return -1
+		}
+		idx, other := -1, 0
+		for _, e := range phi.Edges {
+			if prm, isP := e.(*ssa.Parameter); isP {
+				for k, q := range h.Params {
+					if q == prm {
+						if idx >= 0 && idx != k {
+							return -1
+						}
+						idx = k
+					}
+				}
+				continue
+			}
+			if strings.HasSuffix(path(e), "Originkey") || strings.Contains(path(e), "message") {
+				other++
+				continue
+			}
+			if c, isC := e.(*ssa.Const); isC && c.Value != nil {
+				other++
+				continue
+			}
+			return -1
+		}
+		if other == 0 {
+			return -1
+		}
+		return idx
+	}
+	var out []pointPrim
+	bad := false
+	allInstrs(h, func(in ssa.Instruction) {
+		call, ok := in.(*ssa.Call)
+		if !ok {
+			return
+		}
+		cal := call.Call.StaticCallee()
+		if cal == nil || cal.Signature.Recv() == nil || namedOf(cal.Signature.Recv().Type()) != "input.Point" {
+			return
+		}
+		a := call.Call.Args
+		switch cal.Name() {
+		case "Set", "SetTag", "Delete", "Get":
+			if len(a) < 2 || aliased(a[1]) < 0 {
+				bad = true
+				return
+			}
+			out = append(out, pointPrim{method: cal.Name(), key: aliased(a[1])})
+		case "Rename":
+			if len(a) < 3 || aliased(a[1]) < 0 || aliased(a[2]) < 0 {
+				bad = true
+				return
+			}
+			out = append(out, pointPrim{method: "Rename", key: aliased(a[1]), key2: aliased(a[2])})
+		default:
+			bad = true
+		}
+	})
+	if bad {
+		return nil
+	}
+	return out
+}
